@@ -411,8 +411,17 @@ Definition on_done (verbose : bool) (p : proc) (s : dlst) : list Z * dlst :=
   (o ++ body, s2).
 
 (* ---------------- outcome ---------------- *)
-Record doutcome := mkDOutcome { d_status : Z; d_text : list Z; d_effects : list effect; d_crash : option err }.
-Definition crashed (text : list Z) (fx : list effect) (e : err) : doutcome := mkDOutcome 1 text fx (Some e).
+(* the report as data (a ghost of the printed text: nothing else depends on it): which side
+   section is open, and for every file event its side, catalogue name, kind, whether it was
+   stored/read or refused ('too big'), its size in bytes and the block count reported, and (not
+   printed) the bytes concerned *)
+Inductive log_item :=
+| LSide (n : Z)
+| LFile (side : Z) (name ext : list Z) (kind : Z) (ascii : bool) (stored : bool) (size blocks : Z) (content : list Z).
+
+Record doutcome := mkDOutcome { d_status : Z; d_text : list Z; d_effects : list effect; d_crash : option err;
+                                d_log : list log_item }.
+Definition crashed (text : list Z) (fx : list effect) (e : err) : doutcome := mkDOutcome 1 text fx (Some e) [].
 
 (* ---------------- enumerator / extractor ---------------- *)
 Definition side_dir (target : list Z) (i : nat) : list Z := path_join target (str "side" ++ dec (Z.of_nat i)).
@@ -420,49 +429,52 @@ Definition extracted_name (e : centry) : list Z :=
   map (fun c => if c =? dex_sep_from then dex_sep_to else c) (rstrip_py (entry_name e) ++ str "." ++ rstrip_py (entry_ext e)).
 
 (* one side of list (extract = false) or extract (true) *)
-Fixpoint side_files (verbose extract : bool) (p : proc) (sd : side) (dir : list Z) (es : list centry)
-  (s : dlst) (text : list Z) (fx : list effect) : list Z * list effect * dlst * option err :=
+Fixpoint side_files (verbose extract : bool) (p : proc) (sd : side) (i : nat) (dir : list Z) (es : list centry)
+  (s : dlst) (text : list Z) (fx : list effect) (lg : list log_item)
+  : list Z * list effect * dlst * list log_item * option err :=
   match es with
-  | [] => (text, fx, s, None)
+  | [] => (text, fx, s, lg, None)
   | e :: r =>
-    if negb (entry_decodable e) then (text, fx, s, Some EUnicode)
+    if negb (entry_decodable e) then (text, fx, s, lg, Some EUnicode)
     else
       let '(o1, s1) := on_begin_file verbose p s (ce_status e) (entry_name e) (entry_ext e) (entry_kind e) (entry_is_ascii e) in
       let text1 := text ++ o1 in
+      let item := LFile (Z.of_nat i) (entry_name e) (entry_ext e) (entry_kind e) (entry_is_ascii e) true (entry_size_bytes e) (entry_size_blocks e) in
       if extract then
         match read_file sd e with
-        | Err er => (text1, fx, s1, Some er)
+        | Err er => (text1, fx, s1, lg, Some er)
         | Ok data =>
           let path := path_join dir (extracted_name e) in
-          if existsb (Z.eqb 0) path then (text1, fx, s1, Some EValue)
+          if existsb (Z.eqb 0) path then (text1, fx, s1, lg, Some EValue)
           else
             let '(o2, s2) := on_end_file verbose p s1 (ce_status e) (entry_size_bytes e) (entry_size_blocks e) in
-            side_files verbose extract p sd dir r s2 (text1 ++ o2) (fx ++ [WriteFile path data])
+            side_files verbose extract p sd i dir r s2 (text1 ++ o2) (fx ++ [WriteFile path data]) (lg ++ [item data])
         end
       else
         let '(o2, s2) := on_end_file verbose p s1 (ce_status e) (entry_size_bytes e) (entry_size_blocks e) in
-        side_files verbose extract p sd dir r s2 (text1 ++ o2) fx
+        side_files verbose extract p sd i dir r s2 (text1 ++ o2) fx (lg ++ [item []])
   end.
 
 Fixpoint read_sides (verbose extract : bool) (p : proc) (target : list Z) (sides : list side) (i : nat)
-  (s : dlst) (text : list Z) (fx : list effect) : doutcome :=
+  (s : dlst) (text : list Z) (fx : list effect) (lg : list log_item) : doutcome :=
   match sides with
-  | [] => let '(o, _) := on_done verbose p s in mkDOutcome 0 (text ++ o) fx None
+  | [] => let '(o, _) := on_done verbose p s in mkDOutcome 0 (text ++ o) fx None lg
   | sd :: r =>
     let '(o0, s0) := on_begin_side verbose p s (Z.of_nat i) in
     let text0 := text ++ o0 in
     let dir := side_dir target i in
     let fx0 := if extract then fx ++ [MkDir dir] else fx in
+    let lg0 := lg ++ [LSide (Z.of_nat i)] in
     match list_files sd with
     | Err e => crashed text0 fx0 e
     | Ok es =>
-      match side_files verbose extract p sd dir es s0 text0 fx0 with
-      | (text1, fx1, s1, Some e) => crashed text1 fx1 e
-      | (text1, fx1, s1, None) =>
+      match side_files verbose extract p sd i dir es s0 text0 fx0 lg0 with
+      | (text1, fx1, s1, lg1, Some e) => crashed text1 fx1 e
+      | (text1, fx1, s1, lg1, None) =>
         match compute_usage sd with
         | Err e => crashed text1 fx1 e
         | Ok u => let '(o2, s2) := on_end_side verbose p s1 u in
-                  read_sides verbose extract p target r (S i) s2 (text1 ++ o2) fx1
+                  read_sides verbose extract p target r (S i) s2 (text1 ++ o2) fx1 lg1
         end
       end
     end
@@ -471,7 +483,7 @@ Fixpoint read_sides (verbose extract : bool) (p : proc) (target : list Z) (sides
 Definition disk_list (is_fd verbose : bool) (raw : list Z) : doutcome :=
   match load_image is_fd raw with
   | Err e => crashed [] [] e
-  | Ok img => read_sides verbose false PListing [] img 0 dlst0 [] []
+  | Ok img => read_sides verbose false PListing [] img 0 dlst0 [] [] []
   end.
 (* targetDir = args.into if given (announced on stdout) else dirname(archive) *)
 Definition disk_extract (is_fd verbose : bool) (into : option (list Z)) (archive : list Z) (raw : list Z) : doutcome :=
@@ -480,16 +492,21 @@ Definition disk_extract (is_fd verbose : bool) (into : option (list Z)) (archive
   | Ok img =>
     let target := match into with Some d => d | None => dirname archive end in
     let pre := match into with Some d => str "has into : " ++ d ++ nl | None => [] end in
-    read_sides verbose true PExtracting target img 0 dlst0 pre []
+    read_sides verbose true PExtracting target img 0 dlst0 pre [] []
   end.
 
 (* ---------------- injector ---------------- *)
-Record istate := mkI { i_img : image; i_cur : nat; i_lst : dlst; i_text : list Z }.
+Record istate := mkI { i_img : image; i_cur : nat; i_lst : dlst; i_text : list Z; i_log : list log_item }.
 Definition has_controller (st : istate) : bool := Nat.ltb (i_cur st) (Z.to_nat side_count).
 Definition cur_side (st : istate) : side := nth (i_cur st) (i_img st) [].
 Definition set_cur_side (st : istate) (sd : side) : istate :=
-  mkI (firstn (i_cur st) (i_img st) ++ [sd] ++ skipn (S (i_cur st)) (i_img st)) (i_cur st) (i_lst st) (i_text st).
-Definition emit (st : istate) (o : list Z * dlst) : istate := mkI (i_img st) (i_cur st) (snd o) (i_text st ++ fst o).
+  mkI (firstn (i_cur st) (i_img st) ++ [sd] ++ skipn (S (i_cur st)) (i_img st)) (i_cur st) (i_lst st) (i_text st) (i_log st).
+Definition emit (st : istate) (o : list Z * dlst) : istate := mkI (i_img st) (i_cur st) (snd o) (i_text st ++ fst o) (i_log st).
+Definition note (st : istate) (x : log_item) : istate := mkI (i_img st) (i_cur st) (i_lst st) (i_text st) (i_log st ++ [x]).
+Definition next_side (st : istate) : istate := mkI (i_img st) (S (i_cur st)) (i_lst st) (i_text st) (i_log st).
+(* onBeginOfSide for the current side *)
+Definition open_side (verbose : bool) (st : istate) : istate :=
+  note (emit st (on_begin_side verbose PUpdating (i_lst st) (Z.of_nat (i_cur st)))) (LSide (Z.of_nat (i_cur st))).
 
 (* the retry loop of DiskImageContentInjector.writeFile; fuel = sides + 1 *)
 Fixpoint inject_file (fuel : nat) (verbose : bool) (st : istate) (name ext : list Z) (kind dtype : Z) (data : list Z)
@@ -503,17 +520,19 @@ Fixpoint inject_file (fuel : nat) (verbose : bool) (st : istate) (name ext : lis
       match write_file (cur_side st1) data name ext kind dtype with
       | (sd', Ok _) =>
         let st2 := set_cur_side st1 sd' in
-        Ok (emit st2 (on_end_file verbose PUpdating (i_lst st2) entry_ALIVE (zlen data) (inj_reported_blocks (zlen data))))
+        let st3 := emit st2 (on_end_file verbose PUpdating (i_lst st2) entry_ALIVE (zlen data) (inj_reported_blocks (zlen data))) in
+        Ok (note st3 (LFile (Z.of_nat (i_cur st)) name ext kind (dtype =? 1) true (zlen data) (inj_reported_blocks (zlen data)) data))
       | (sd', Err EValue) =>
         let st2 := set_cur_side st1 sd' in
-        let st3 := emit st2 (on_message false (i_lst st2) (str "too big")) in
+        let st3 := note (emit st2 (on_message false (i_lst st2) (str "too big")))
+                        (LFile (Z.of_nat (i_cur st)) name ext kind (dtype =? 1) false (zlen data) 0 data) in
         match compute_usage (cur_side st3) with
         | Err e => Err e
         | Ok u =>
           let st4 := emit st3 (on_end_side verbose PUpdating (i_lst st3) u) in
-          let st5 := mkI (i_img st4) (S (i_cur st4)) (i_lst st4) (i_text st4) in
+          let st5 := next_side st4 in
           if negb (has_controller st5) then Ok st5
-          else inject_file fuel' verbose (emit st5 (on_begin_side verbose PUpdating (i_lst st5) (Z.of_nat (i_cur st5)))) name ext kind dtype data
+          else inject_file fuel' verbose (open_side verbose st5) name ext kind dtype data
         end
       | (_, Err e) => Err e
       end
@@ -550,9 +569,9 @@ Fixpoint inject_sources (verbose : bool) (fs : fsmap) (st : istate) (srcs : list
       | Err e => Err e
       | Ok u =>
         let st1 := emit st (on_end_side verbose PUpdating (i_lst st) u) in
-        let st2 := mkI (i_img st1) (S (i_cur st1)) (i_lst st1) (i_text st1) in
+        let st2 := next_side st1 in
         if negb (has_controller st2) then Ok st2
-        else inject_sources verbose fs (emit st2 (on_begin_side verbose PUpdating (i_lst st2) (Z.of_nat (i_cur st2)))) rest
+        else inject_sources verbose fs (open_side verbose st2) rest
       end
     else
       let '(name, ext, ext_opt, clean) := split_source src in
@@ -579,8 +598,7 @@ Fixpoint finish_sides (fuel : nat) (verbose : bool) (st : istate) : res istate :
   | O => Ok st
   | S fuel' =>
     if Nat.ltb (S (i_cur st)) (Z.to_nat side_count) then
-      let st1 := mkI (i_img st) (S (i_cur st)) (i_lst st) (i_text st) in
-      let st2 := emit st1 (on_begin_side verbose PUpdating (i_lst st1) (Z.of_nat (i_cur st1))) in
+      let st2 := open_side verbose (next_side st) in
       match compute_usage (cur_side st2) with
       | Err e => Err e
       | Ok u => finish_sides fuel' verbose (emit st2 (on_end_side verbose PUpdating (i_lst st2) u))
@@ -592,7 +610,7 @@ Definition inject_perform (is_fd verbose init : bool) (fs : fsmap) (archive : li
   if Nat.ltb (length img) (Z.to_nat side_count) then crashed [] [] EIndex     (* image.sides[i] for i in range(4) *)
   else
     let img0 := if init then map init_fs (firstn (Z.to_nat side_count) img) ++ skipn (Z.to_nat side_count) img else img in
-    let st0 := emit (mkI img0 0 dlst0 []) (on_begin_side verbose PUpdating dlst0 0) in
+    let st0 := open_side verbose (mkI img0 0 dlst0 [] []) in
     match inject_sources verbose fs st0 srcs with
     | Err e => crashed (i_text st0) [] e          (* text printed before the crash is not compared *)
     | Ok st1 =>
@@ -607,7 +625,7 @@ Definition inject_perform (is_fd verbose init : bool) (fs : fsmap) (archive : li
       | Err e => crashed (i_text st1) [] e
       | Ok st2 =>
         let '(o, _) := on_done verbose PUpdating (i_lst st2) in
-        mkDOutcome 0 (i_text st2 ++ o) [WriteFile archive (save_image is_fd (i_img st2))] None
+        mkDOutcome 0 (i_text st2 ++ o) [WriteFile archive (save_image is_fd (i_img st2))] None (i_log st2)
       end
     end.
 
